@@ -3,43 +3,81 @@ import Dawn.Proofs.BuildSettle
 /-!
 # Histories
 
-`Reach P S w`: `w` is a persisted state some finite history of operations leads to, starting without build state —
+`Reach P S R w`: `w` is a persisted state some finite history of operations leads to, starting without build state —
 edits of the tree by the user, real builds of any requested target list (full or partial, with any bodies failing),
-dry runs, and builds or loads killed at any hook point. Every build follows a fresh load (`runBuild`, `crashBuild`).
+dry runs, builds or loads killed at any hook point, and garbage collections. Every build follows a fresh load
+(`runBuild`, `crashBuild`). `R` is the set of labels a collection has retired: a build after a collection must not
+define them again (C14's own exclusion — the run counter of D8's repair restarts with the record).
 Every reachable state satisfies the persisted invariant.
 -/
 namespace Dawn.Build
 
-inductive Reach (P : Params) (S : Shape) : World → Prop
-  | init (w : World) (h : ∀ l, w.recs l = none) : Reach P S w
-  | edit {w w' : World} : Reach P S w → EditOK S w w' → Reach P S w'
-  | build {w : World} (t : Tree) (o : Opts) (ord : List Label) : Reach P S w → Conforms S t → o.dry = false →
-      Ordered P t o (BSt.init (load t w)) ord → Reach P S (runBuild P t o ord w).w
-  | dry {w : World} (t : Tree) (o : Opts) (ord : List Label) : Reach P S w → o.dry = true → Reach P S (runBuild P t o ord w).w
-  | crash {w : World} (t : Tree) (o : Opts) (ord : List Label) (k : Nat) : Reach P S w → Conforms S t → o.dry = false →
-      Ordered P t o (BSt.init (load t w)) ord → Reach P S (crashBuild P t o ord k w)
-  | crashLoad {w : World} (t : Tree) (k : Nat) : Reach P S w → Reach P S (crashLoad t k w)
+inductive Reach (P : Params) (S : Shape) : (Label → Prop) → World → Prop
+  | init (w : World) (h : ∀ l, w.recs l = none) : Reach P S (fun _ => False) w
+  | edit {R : Label → Prop} {w w' : World} : Reach P S R w → EditOK S w w' → Reach P S R w'
+  | build {R : Label → Prop} {w : World} (t : Tree) (o : Opts) (ord : List Label) : Reach P S R w → Conforms S t → o.dry = false →
+      Ordered P t o (BSt.init (load t w)) ord → (∀ x, R x → t.defs x = none) → Reach P S R (runBuild P t o ord w).w
+  | dry {R : Label → Prop} {w : World} (t : Tree) (o : Opts) (ord : List Label) : Reach P S R w → o.dry = true →
+      Reach P S R (runBuild P t o ord w).w
+  | crash {R : Label → Prop} {w : World} (t : Tree) (o : Opts) (ord : List Label) (k : Nat) : Reach P S R w → Conforms S t →
+      o.dry = false → Ordered P t o (BSt.init (load t w)) ord → (∀ x, R x → t.defs x = none) →
+      Reach P S R (crashBuild P t o ord k w)
+  | crashLoad {R : Label → Prop} {w : World} (t : Tree) (k : Nat) : Reach P S R w → Reach P S R (crashLoad t k w)
+  | gc {R : Label → Prop} {w : World} (t : Tree) (pi : Bool) : Reach P S R w →
+      Reach P S (fun x => R x ∨ x ∉ t.labels) (gc t pi w)
+
+/-- a collection: the live records stay, the dead labels are retired -/
+theorem dinv_sweep {P : Params} {S : Shape} {w : World} {G : Ghost} (live : List Label) (di : DInv P S w G) :
+    DInv P S (sweep live w) { G with retired := fun x => G.retired x ∨ x ∉ live } := by
+  have hrec : ∀ l r, (sweep live w).recs l = some r → w.recs l = some r ∧ l ∈ live := by
+    intro l r h
+    by_cases hl : l ∈ live
+    · rw [sweep_recs_live live w l hl] at h; exact ⟨h, hl⟩
+    · rw [sweep_recs_dead live w l hl] at h; cases h
+  constructor
+  · intro l r e h hrr hd g hg
+    exact di.rec_out l r e (hrec l r h).1 hrr hd g hg
+  · intro l r e h hrr hd g hg
+    exact di.rec_hist l r e (hrec l r h).1 hrr hd g hg
+  · intro l r e h hrr hd x hx
+    have := di.rec_seen l r e (hrec l r h).1 hrr hd x hx
+    unfold SeenOK at this ⊢
+    exact this
+  · intro l r h x st hst
+    by_cases hx : x ∈ live
+    · rcases di.runs_le l r (hrec l r h).1 x st hst with h1 | h1
+      · left; rw [sweep_recs_live live w x hx]; exact h1
+      · right; exact Or.inl h1
+    · right; exact Or.inr hx
+  · intro l r h hk
+    exact di.src_runs l r (hrec l r h).1 hk
 
 theorem reach_dinv {P : Params} {S : Shape} (hinj : SumInj P) (hsr : P.stampRuns = true) (hmk : P.marker = true)
-    {w : World} (h : Reach P S w) : ∃ G, DInv P S w G := by
+    {R : Label → Prop} {w : World} (h : Reach P S R w) : ∃ G, DInv P S w G ∧ G.retired = R := by
   induction h with
-  | init w h => exact ⟨⟨fun _ _ _ => 0, fun _ _ _ => []⟩, dinv_empty P S w _ h⟩
-  | edit _ he ih => obtain ⟨G, di⟩ := ih; exact ⟨G, dinv_edit di he⟩
-  | build t o ord _ hc hdry ho ih =>
-    obtain ⟨G, di⟩ := ih
-    obtain ⟨G', di', _⟩ := build_consistent hc hinj hsr hdry ord _ G di ho
-    exact ⟨G', di'⟩
+  | init w h => exact ⟨⟨fun _ _ _ => 0, fun _ _ _ => [], fun _ => False⟩, dinv_empty P S w _ h, rfl⟩
+  | edit _ he ih => obtain ⟨G, di, hr⟩ := ih; exact ⟨G, dinv_edit di he, hr⟩
+  | build t o ord _ hc hdry ho hret ih =>
+    obtain ⟨G, di, hr⟩ := ih
+    obtain ⟨G', di', hr', _⟩ := build_consistent hc hinj hsr hdry ord _ G di ho (by rw [hr]; exact hret)
+    exact ⟨G', di', by rw [hr', hr]⟩
   | dry t o ord _ hdry ih =>
-    obtain ⟨G, di⟩ := ih
-    refine ⟨G, ?_⟩
+    obtain ⟨G, di, hr⟩ := ih
+    refine ⟨G, ?_, hr⟩
     unfold runBuild
     rw [(build_dry P t o hdry ord _).1]
     exact dinv_load t di
-  | crash t o ord k _ hc hdry ho ih =>
-    obtain ⟨G, di⟩ := ih
-    exact crash_dinv hc hinj hsr hmk hdry ord _ G di ho k
+  | crash t o ord k _ hc hdry ho hret ih =>
+    obtain ⟨G, di, hr⟩ := ih
+    obtain ⟨G', di', hr'⟩ := crash_dinv hc hinj hsr hmk hdry ord _ G di ho (by rw [hr]; exact hret) k
+    exact ⟨G', di', by rw [hr', hr]⟩
   | crashLoad t k _ ih =>
-    obtain ⟨G, di⟩ := ih
-    exact ⟨G, crashLoad_dinv t _ G di k⟩
+    obtain ⟨G, di, hr⟩ := ih
+    exact ⟨G, crashLoad_dinv t _ G di k, hr⟩
+  | gc t pi _ ih =>
+    obtain ⟨G, di, hr⟩ := ih
+    refine ⟨{ G with retired := fun x => G.retired x ∨ x ∉ t.labels }, ?_, by simp [hr]⟩
+    unfold gc gcLive
+    exact dinv_sweep t.labels (dinv_load t di)
 
 end Dawn.Build
